@@ -185,7 +185,8 @@ class C13(CheckBase):
             for tag, data in (("A", fileA), ("B", fileB)):
                 img = sb.file("disc%s/disc.%s" % (tag, ext), data)
                 res = {}
-                r = runtool.run([dfs, "--verbose", "--show-config", "--file", img, "free"], sb.path)
+                first = "0" + (s["volumes"][0]["label"] or "")
+                r = runtool.run([dfs, "--verbose", "--show-config", "--file", img, "free", first], sb.path)
                 v.evaluations += 1
                 if r.signal is not None or r.timed_out:
                     v.fail("C13/crash", "signal/timeout on body assignment %s" % tag, r.brief())
@@ -218,8 +219,14 @@ class C13(CheckBase):
                 if dens not in g.group(1):
                     v.fail("C13/density", "density not %r" % dens, r.brief())
                 res["free"] = r.stdout
-                for name, args in (("cat", ["cat"]), ("info", ["info", "#.*"]), ("titles", ["show-titles", "0"])):
-                    rr = runtool.run([dfs, "--file", img] + args, sb.path)
+                for name, args in (("cat", ["cat", first]), ("info", ["--drive", first, "info", "#.*"]),
+                                   ("titles", ["show-titles", "0"])):
+                    pre = [a for a in args if a.startswith("--drive") or a == first and args[0] == "--drive"]
+                    if args[0] == "--drive":
+                        argv = [dfs, "--file", img] + args
+                    else:
+                        argv = [dfs, "--file", img] + args
+                    rr = runtool.run(argv, sb.path)
                     v.evaluations += 1
                     res[name] = (rr.status, rr.signal, rr.stdout)
                     if rr.signal is not None or rr.status != 0:
